@@ -1084,6 +1084,52 @@ Theorem spec_val_nonref :
   forall defs R ctx T v, carries_ref_ty defs T = false -> spec_remap_val defs R ctx T v = Ok v.
 Proof. intros defs R ctx T v H. unfold spec_remap_val. apply spec_val_nomention. exact H. Qed.
 
+(* no row is recorded as a known finding today: every value is [clean], the theorems hold for EVERY
+   well-typed class *)
+Lemma clean_when_none_known tb known : (forall r, known r = false) -> forall v, clean tb known v = true.
+Proof.
+  intros Hk. induction v using val_ind2; cbn [clean]; try reflexivity.
+  - apply forallb_forall. intros p Hp. rewrite Forall_forall in H. rewrite (H p Hp).
+    destruct (lookup_row tb n c (fst p)) as [r|]; [rewrite Hk|]; reflexivity.
+  - apply forallb_forall. rewrite Forall_forall in H. exact H.
+  - exact IHv.
+  - rewrite IHv1, IHv2. reflexivity.
+Qed.
+
+Theorem remap_class_spec_full :
+  forall (R : remapper) (ctx : option str) (v : val),
+    has_ty type_defs class_ty v = true ->
+    remap_val gen_table R ctx class_ty v = spec_remap_val type_defs R ctx class_ty v.
+Proof.
+  intros R ctx v Ht. apply remap_class_spec; [exact Ht|]. apply clean_when_none_known. intros r. reflexivity.
+Qed.
+
+Theorem remap_val_spec_full :
+  forall (R : remapper) (ctx : option str) (T : rty) (v : val),
+    deleg_ok gen_table (ref_types type_defs) T = true ->
+    has_ty type_defs T v = true ->
+    remap_val gen_table R ctx T v = spec_remap_val type_defs R ctx T v.
+Proof.
+  intros R ctx T v Hd Ht. apply remap_val_spec; [exact Hd|exact Ht|]. apply clean_when_none_known. intros r. reflexivity.
+Qed.
+
+Theorem remap_val_shape_full :
+  forall (R : remapper) (ctx : option str) (T : rty) (v v' : val),
+    deleg_ok gen_table (ref_types type_defs) T = true ->
+    has_ty type_defs T v = true ->
+    remap_val gen_table R ctx T v = Ok v' ->
+    same_shape v v' = true /\ opaques v' = opaques v.
+Proof.
+  intros R ctx T v v' Hd Ht. apply remap_val_shape; [exact Hd|exact Ht|].
+  apply clean_when_none_known. intros r. reflexivity.
+Qed.
+
+Lemma row_ok_contains_th1_th2 :
+  forall tb S D r, row_ok tb S D r = true ->
+    (carries_ref_in S r = true -> effective_t tb r = Remapped (appropriate r)) /\
+    (carries_ref_in S r = false -> effective_t tb r = Copied).
+Proof. intros tb S D r H. split; [exact (row_ok_th1 tb S D r H)|exact (row_ok_th2 tb S D r H)]. Qed.
+
 (* ------------------------------------------------------------------ *)
 (* non-vacuity: a concrete class *)
 From Coq Require Import Ascii.
@@ -1093,6 +1139,13 @@ Definition vfalse : val := VOpaque (bs "false").
 Definition vflags (n : string) (fs : list string) : val := VNode n "" (map (fun f => (f, vfalse)) fs).
 Definition ex_insn (c : string) (fs : list (string * val)) : val :=
   VNode "InstructionListEntry" "" [("label", VNone); ("frame", VNone); ("instruction", VNode "Instruction" c fs)].
+
+Definition ex_component (n d : string) : val :=
+  VNode "RecordComponent" "" [
+    ("name", VStr (bs n)); ("descriptor", VStr (bs d)); ("signature", VNone);
+    ("runtime_visible_annotations", VList []); ("runtime_invisible_annotations", VList []);
+    ("runtime_visible_type_annotations", VList []); ("runtime_invisible_type_annotations", VList []);
+    ("attributes", VList [])].
 
 (* class [cn] { int [fn]; void m() { getfield [ro].[rn]:I; return } } *)
 Definition ex_class_of (cn fn ro rn : string) : val :=
@@ -1142,7 +1195,7 @@ Definition ex_class_of (cn fn ro rn : string) : val :=
     ("runtime_visible_type_annotations", VList []); ("runtime_invisible_type_annotations", VList []);
     ("module", VNone); ("module_packages", VNone); ("module_main_class", VNone);
     ("nest_host_class", VSome (VStr (bs ro))); ("nest_members", VNone); ("permitted_subclasses", VNone);
-    ("record_components", VList []); ("attributes", VList [])].
+    ("record_components", VList [ex_component fn "I"]); ("attributes", VList [])].
 
 (* [ex_R] (C07/Theory.v): a/A -> x/Y, a/A.f:I -> g, nothing else *)
 Definition tree_example : Prop :=
@@ -1153,8 +1206,12 @@ Definition tree_example : Prop :=
   (* the declared field is asked about with the declaring class, the referenced one with its owner:
      the same field name under another owner stays *)
   remap_val gen_table ex_R None class_ty (ex_class_of "a/A" "f" "b/B" "f") = Ok (ex_class_of "x/Y" "g" "b/B" "f") /\
-  (* a class with a record component is outside the hypothesis (known finding F18c) *)
-  clean gen_table known_row
-    (VNode "ClassFile" "" [("record_components", VList [VNode "RecordComponent" "" [("name", VStr (bs "c"))]])]) = false.
+  (* a record component is the field of its name in the record class; module data is kept *)
+  remap_val gen_table ex_R (Some (bs "a/A")) (TName "RecordComponent") (ex_component "f" "I") = Ok (ex_component "g" "I") /\
+  remap_val gen_table ex_R (Some (bs "b/B")) (TName "RecordComponent") (ex_component "f" "La/A;") = Ok (ex_component "f" "Lx/Y;") /\
+  remap_val gen_table ex_R (Some (bs "a/A")) (TName "RecordComponent") (ex_component "not/a;name" "I") = Err /\
+  remap_val gen_table ex_R None (TName "ModuleProvides")
+    (VNode "ModuleProvides" "" [("name", VStr (bs "a/A")); ("provides_with", VList [VStr (bs "a/A"); VStr (bs "b/B")])]) =
+  Ok (VNode "ModuleProvides" "" [("name", VStr (bs "x/Y")); ("provides_with", VList [VStr (bs "x/Y"); VStr (bs "b/B")])]).
 Lemma tree_example_holds : tree_example.
 Proof. unfold tree_example. repeat split; vm_compute; reflexivity. Qed.
